@@ -6,12 +6,12 @@ ID="$1"; DIR="$2"; NAME="$3"
 OUT=/verif/seeded/$ID-$NAME
 WT=$(mktemp -d /tmp/wt-keep-XXXXXX); rmdir "$WT"
 git -C /repo worktree add -q --detach "$WT" HEAD || exit 3
-cp "$DIR/demo.py" "$WT/_seed_demo.py"
-( cd "$WT" && PYTHONPATH="$WT" timeout 600 /venv/bin/python _seed_demo.py >/dev/null 2>&1 ); RC0=$?
+mkdir -p "$WT/SEEDS/x"; cp "$DIR/demo.py" "$WT/SEEDS/x/demo.py"
+( cd "$WT" && PYTHONPATH="$WT" timeout 600 /venv/bin/python SEEDS/x/demo.py >/dev/null 2>&1 ); RC0=$?
 if ! git -C "$WT" apply "$DIR/patch.diff" 2>/dev/null && ! git -C "$WT" apply --3way "$DIR/patch.diff" 2>/dev/null; then
   echo "$ID-$NAME: PATCH DOES NOT APPLY"; git -C /repo worktree remove --force "$WT"; exit 4; fi
 git -C "$WT" diff > "$WT/_patch_now.diff"
-( cd "$WT" && PYTHONPATH="$WT" timeout 600 /venv/bin/python _seed_demo.py >/dev/null 2>&1 ); RC1=$?
+( cd "$WT" && PYTHONPATH="$WT" timeout 600 /venv/bin/python SEEDS/x/demo.py >/dev/null 2>&1 ); RC1=$?
 TESTS=$( cd "$WT" && PYTHONPATH="$WT" /venv/bin/python -m pytest -q -p no:cacheprovider --timeout=900 -n 6 tests 2>&1 | tail -1 )
 HEAD=$(git -C /repo log --format=%h -1)
 echo "$ID-$NAME: demo without=$RC0 with=$RC1 tests: $TESTS"
